@@ -7,6 +7,7 @@ import (
 	"fmt"
 	"math/big"
 	"sort"
+	"strconv"
 	"strings"
 )
 
@@ -227,6 +228,8 @@ type Script struct {
 	// hideIn: range r is hidden for positions inside range o (blocks that cannot
 	// reach the start of a path explored on its own)
 	hideIn []hideRule
+	// native: queries of this script are rendered over the solvers' native string theory
+	native bool
 	// proved: lines that assume a goal after its obligation was recorded
 	proved map[int]bool
 }
@@ -372,4 +375,86 @@ func (s *Script) mark() int { return len(s.lines) }
 
 func (s *Script) prefix(n int) string {
 	return strings.Join(s.lines[:n], "\n")
+}
+
+
+// ---- native string rendering (lemma functions over strings and integers) ----
+//
+// The generator's string theory is an uninterpreted sort with observers and
+// generator-instantiated facts. For a lemma whose variables are strings and
+// integers only, the same terms are given their standard meaning instead: the
+// sort and its functions are *defined* by SMT-LIB strings, and every fact the
+// generator emitted about them (all marked global, all theorems of the native
+// theory) is dropped. Failing lemmas then come back `sat` with string models.
+const nativePrelude = `(define-sort Str () String)
+(define-fun slen ((s Str)) Int (str.len s))
+(define-fun sbyte ((s Str) (i Int)) Int (str.to_code (str.at s i)))
+(define-fun str.empty () Str "")
+(define-fun scat ((a Str) (b Str)) Str (str.++ a b))
+(define-fun ssub ((s Str) (lo Int) (hi Int)) Str (str.substr s lo (- hi lo)))
+(define-fun str.chr ((n Int)) Str (str.from_code n))
+(define-fun sidx ((o Int) (i Int)) Int (+ o i))
+(declare-fun bit (Int Int) Bool)
+(declare-fun wraps (Int Int) Bool)
+`
+
+func smtStringLit(s string) string {
+	var b strings.Builder
+	b.WriteByte('"')
+	for i := 0; i < len(s); i++ {
+		c := s[i]
+		switch {
+		case c == '"':
+			b.WriteString(`""`)
+		case c >= 0x20 && c < 0x7f && c != '\\':
+			b.WriteByte(c)
+		default:
+			fmt.Fprintf(&b, "\\u{%x}", c)
+		}
+	}
+	b.WriteByte('"')
+	return b.String()
+}
+
+func (s *Script) nativePrefix(n int, hide [][2]int, noProvedFrom int) string {
+	var b strings.Builder
+	b.WriteString(nativePrelude)
+	hidden := func(i int) bool {
+		for _, r := range hide {
+			if r[0] <= i && i < r[1] {
+				return true
+			}
+		}
+		return false
+	}
+	for i := 0; i < n; i++ {
+		l := s.lines[i]
+		if l == prelude || strings.HasPrefix(l, "(declare-sort Str") {
+			continue
+		}
+		if noProvedFrom >= 0 && i >= noProvedFrom && s.proved[i] {
+			continue
+		}
+		if s.global[i] {
+			continue // a fact of the generator's string/bit theory
+		}
+		if strings.HasPrefix(l, "(declare-fun scat ") || strings.HasPrefix(l, "(declare-fun ssub ") || strings.HasPrefix(l, "(declare-fun str.chr ") {
+			continue
+		}
+		if strings.HasPrefix(l, "; lit.") {
+			// "; lit.N = <Go quoted string>"
+			eq := strings.Index(l, " = ")
+			name := l[2:eq]
+			if v, err := strconv.Unquote(l[eq+3:]); err == nil {
+				b.WriteString("(assert (= " + name + " " + smtStringLit(v) + "))\n")
+			}
+			continue
+		}
+		if hidden(i) && !strings.HasPrefix(l, "(declare-") {
+			continue
+		}
+		b.WriteString(l)
+		b.WriteByte('\n')
+	}
+	return b.String()
 }
